@@ -6,7 +6,8 @@ import vlib
 from vlib import Report
 
 W = os.path.join(vlib.BUILD, "X01")
-SRCS = ["src/control/PID.cpp", "src/signal/FirstOrderButterworth.cpp", "src/pointset/algorithms/Correspondence.cpp"]
+SRCS = ["src/control/PID.cpp", "src/signal/FirstOrderButterworth.cpp", "src/pointset/algorithms/Correspondence.cpp",
+        "src/regression/ransac/Ransac.cpp", "src/regression/ransac/RansacIterations.cpp", "src/regression/ransac/RansacModel.cpp"]
 
 
 def run(tier, seed):
